@@ -700,9 +700,325 @@ fn wl_c01(seed: u64, tier: &str) -> Vec<Vec<Value>> {
     sessions
 }
 
+
+// ---------------------------------------------------------------------------
+// C02 / C10: scalars and point pools
+fn w_or(a: &W, b: &W) -> W {
+    a.iter().zip(b.iter()).map(|(x, y)| x | y).collect()
+}
+fn rand_scalar_bits(r: &mut Rng, bits: usize) -> W {
+    // uniformly random value with exactly `bits` significant bits (bits >= 1), 4 words
+    let mut w: W = (0..4).map(|_| r.next()).collect();
+    for i in bits..256 {
+        w[i / 64] &= !(1u64 << (i % 64));
+    }
+    w[(bits - 1) / 64] |= 1u64 << ((bits - 1) % 64);
+    w
+}
+/// (scalar, class) catalogue; `all` adds every single bit and more boundaries
+fn scalar_catalogue(r: &mut Rng, all: bool) -> Vec<(W, &'static str)> {
+    let fr = fr_info();
+    let z = vec![0u64; 4];
+    let mut v: Vec<(W, &'static str)> = vec![];
+    for s in 0..3 {
+        v.push((w_add_small(&z, s), "small"));
+    }
+    v.push((w_sub_small(&fr.p, 1), "r-1"));
+    v.push((fr.p.clone(), "r"));
+    v.push((w_add_small(&fr.p, 1), "r+1"));
+    v.push((w_ones(255, 4), "2^255-1"));
+    v.push((w_pow2(255, 4), "2^255"));
+    v.push((w_ones(256, 4), "2^256-1"));
+    v.push((w_or(&fr.p, &w_pow2(255, 4)), "r+2^255"));
+    let bits: Vec<usize> = if all {
+        (0..256).collect()
+    } else {
+        vec![0, 1, 31, 32, 33, 63, 64, 65, 95, 96, 127, 128, 129, 160, 191, 192, 193, 223, 224, 253, 254, 255]
+    };
+    for b in bits {
+        v.push((w_pow2(b, 4), "single-bit"));
+    }
+    for j in 0..4 {
+        let mut w = z.clone();
+        w[j] = u64::MAX;
+        if j == 3 {
+            w[3] >>= 1;
+        }
+        v.push((w, "ones-word"));
+    }
+    for b in [32usize, 64, 96, 128, 160, 192, 224].iter() {
+        v.push((w_or(&w_pow2(*b, 4), &w_pow2(*b - 1, 4)), "straddle"));
+    }
+    for i in [1usize, 32, 33, 63, 64, 65, 128, 192, 254].iter() {
+        v.push((w_ones(*i, 4), "2^i-1"));
+    }
+    for _ in 0..(if all { 40 } else { 6 }) {
+        v.push((rand_scalar_bits(r, 255), "rand255"));
+        v.push((rand_scalar_bits(r, 256), "rand256"));
+        let b = 1 + r.below(254) as usize;
+        v.push((rand_scalar_bits(r, b), "randlen"));
+    }
+    v
+}
+
+fn point_pool<G: Grp>(r: &mut Rng, seed: u64, with_t3: bool) -> Vec<(G, &'static str)>
+where
+    G::Base: J,
+    G::Affine: CurveAffine<Projective = G>,
+{
+    let mut rng = xs(seed);
+    let mut v: Vec<(G, &'static str)> = vec![(G::one(), "gen")];
+    let mut t = G::one();
+    t.double();
+    v.push((t, "2g"));
+    let mut t3 = t;
+    t3.add_assign(&G::one());
+    v.push((t3, "3g-proj"));
+    for _ in 0..3 {
+        v.push((G::random(&mut rng), "subgroup"));
+    }
+    for _ in 0..2 {
+        v.push((full_order_point::<G>(r).into_projective(), "full-order"));
+    }
+    if with_t3 {
+        // the order-3 point (0, 2) of E1
+        let z = vec![0u64; 6];
+        let p: G = j_to_proj::<G>(&json!([nat(&z), nat(&w_add_small(&z, 2)), nat(&w_add_small(&z, 1))]));
+        v.push((p, "order-3"));
+    }
+    v
+}
+
+fn wl_c02_group<G: Grp>(r: &mut Rng, seed: u64, thorough: bool, sessions: &mut Vec<Vec<Value>>)
+where
+    G: CurveProjective<Scalar = Fr>,
+    G::Base: J,
+    G::Affine: CurveAffine<Projective = G, Base = G::Base, Scalar = Fr>,
+{
+    let g = G::NAME;
+    let is1 = g == "G1";
+    let pool = point_pool::<G>(r, seed, is1);
+    let cat = scalar_catalogue(r, thorough);
+    let maxw: u64 = if thorough { 16 } else { 12 };
+    let mut ops = vec![];
+    let per = if is1 { 4 } else { 2 };
+    let stride = if is1 || thorough { 1 } else { 3 };
+    for (i, (k, cls)) in cat.iter().enumerate() {
+        if i % stride != 0 && *cls != "r" && *cls != "2^255-1" && *cls != "r+2^255" {
+            continue;
+        }
+        let (p, pc) = &pool[i % pool.len()];
+        let ws: Vec<u64> = (0..3).map(|j| 2 + ((i as u64 * 3 + j) % (maxw - 1))).collect();
+        let idx: Vec<u64> = vec![1 << (i % 8), 255 - (i as u64 % 7), r.below(256)];
+        ops.push(json!({"op": "smul", "g": g, "p": proj_to_j(p), "k": nat(k), "windows": ws,
+                        "log_digits": true, "pre256_idx": idx, "cls": format!("{}/{}", cls, pc)}));
+        if ops.len() >= per {
+            sessions.push(std::mem::replace(&mut ops, vec![]));
+        }
+    }
+    if thorough {
+        // the largest windows, a few cases only (tables of 2^21 points)
+        for w in [17u64, 19, 21, 22].iter() {
+            let (p, _) = &pool[3];
+            let k = rand_scalar_bits(r, 255);
+            ops.push(json!({"op": "smul", "g": g, "p": proj_to_j(p), "k": nat(&k), "windows": [w],
+                            "log_digits": true, "pre256_idx": [], "cls": "big-window"}));
+        }
+    }
+    sessions.push(std::mem::replace(&mut ops, vec![]));
+    // context histories: one reused context per session
+    let nh = if thorough { 40 } else { if is1 { 8 } else { 3 } };
+    let lens = [3usize, 12, 70, 130, 200, 255];
+    let nums: Vec<W> = vec![vec![1], vec![2], vec![10], vec![100], vec![5000], vec![200_000]];
+    for h in 0..nh {
+        let mut ops = vec![json!({"op": "wn", "g": g, "fn": "new"})];
+        let bases = [&pool[0].0, &pool[3 + h % 3].0, &pool[6 + h % 2].0];
+        for step in 0..(if is1 { 6 } else { 4 }) {
+            let kind = *r.pick(&["base_scalars", "scalar_bases", "base_shared", "scalar_shared"]);
+            if kind.starts_with("base") {
+                let p = *r.pick(&bases);
+                let n = r.pick(&nums).clone();
+                let ks: Vec<Value> = (0..2).map(|_| { let l = *r.pick(&lens); nat(&rand_scalar_bits(r, l)) }).collect();
+                ops.push(json!({"op": "wn", "g": g, "fn": kind, "p": proj_to_j(p), "n": nat(&n), "ks": ks,
+                                "cls": format!("hist-step{}", step)}));
+            } else {
+                let len = *r.pick(&lens);
+                let k = rand_scalar_bits(r, len);
+                let ps: Vec<Value> = (0..2).map(|_| proj_to_j(*r.pick(&bases))).collect();
+                ops.push(json!({"op": "wn", "g": g, "fn": kind, "k": nat(&k), "ps": ps,
+                                "cls": format!("hist-step{}", step)}));
+            }
+        }
+        sessions.push(ops);
+    }
+    // window recommendations: every bit length, thresholds
+    let mut ops = vec![];
+    ops.push(json!({"op": "wnrec", "g": g, "fn": "scalar", "k": [], "cls": "bitlen"}));
+    for b in 1..=256usize {
+        ops.push(json!({"op": "wnrec", "g": g, "fn": "scalar", "k": nat(&rand_scalar_bits(r, b)), "cls": "bitlen"}));
+    }
+    for e in 0..64u32 {
+        let x = 1u64 << e;
+        for d in [x.wrapping_sub(1), x, x.wrapping_add(1)].iter() {
+            ops.push(json!({"op": "wnrec", "g": g, "fn": "num", "n": nat(&vec![*d]), "cls": "threshold"}));
+        }
+    }
+    for n in 0..600u64 {
+        ops.push(json!({"op": "wnrec", "g": g, "fn": "num", "n": nat(&vec![n]), "cls": "threshold"}));
+    }
+    ops.push(json!({"op": "wnrec", "g": g, "fn": "num", "n": nat(&vec![u64::MAX]), "cls": "threshold"}));
+    sessions.push(ops);
+}
+
+fn wl_c02(seed: u64, tier: &str) -> Vec<Vec<Value>> {
+    let mut r = Rng(seed.wrapping_mul(202) ^ 2);
+    let mut sessions = vec![];
+    wl_c02_group::<G1>(&mut r, seed, tier == "thorough", &mut sessions);
+    wl_c02_group::<G2>(&mut r, seed + 7, tier == "thorough", &mut sessions);
+    sessions.retain(|s| !s.is_empty());
+    sessions
+}
+
+fn wl_c10_group<G: Grp>(r: &mut Rng, seed: u64, thorough: bool, sessions: &mut Vec<Vec<Value>>)
+where
+    G: CurveProjective<Scalar = Fr>,
+    G::Base: J,
+    G::Affine: CurveAffine<Projective = G, Base = G::Base, Scalar = Fr>,
+{
+    let g = G::NAME;
+    let is1 = g == "G1";
+    let mut rng = xs(seed ^ 0x10);
+    let sub: Vec<G::Affine> = (0..4).map(|_| G::random(&mut rng).into_affine()).collect();
+    let gen = G::one().into_affine();
+    let zero = <G::Affine as CurveAffine>::zero();
+    let mut neg0 = sub[0];
+    neg0.negate();
+    let aj = |p: &G::Affine| aff_to_j(p);
+    let z4 = vec![0u64; 4];
+    let ones255 = w_ones(255, 4);
+    let mut ops: Vec<Value> = vec![];
+    let mut push = |ops: &mut Vec<Value>, sessions: &mut Vec<Vec<Value>>, v: Value| {
+        ops.push(v);
+        if ops.len() >= 4 {
+            sessions.push(std::mem::replace(ops, vec![]));
+        }
+    };
+    // shapes, small n, every window 1..=20 (quick: a rotating subset per shape)
+    let shapes: Vec<(&str, Vec<Value>, Vec<W>)> = vec![
+        ("empty", vec![], vec![]),
+        ("single", vec![aj(&gen)], vec![rand_scalar_bits(r, 255)]),
+        ("zero-scalar", vec![aj(&sub[0]), aj(&sub[1])], vec![z4.clone(), rand_scalar_bits(r, 200)]),
+        ("all-zero-scalars", vec![aj(&sub[0]), aj(&sub[1])], vec![z4.clone(), z4.clone()]),
+        ("ones", vec![aj(&sub[0]), aj(&sub[1])], vec![ones255.clone(), ones255.clone()]),
+        ("duplicate-points", vec![aj(&sub[0]), aj(&sub[0]), aj(&sub[0])],
+            { let k = rand_scalar_bits(r, 255); vec![k.clone(), k.clone(), rand_scalar_bits(r, 254)] }),
+        ("inverse-pair", vec![aj(&sub[0]), aj(&neg0)], { let k = rand_scalar_bits(r, 255); vec![k.clone(), k] }),
+        ("inverse-pair-2", vec![aj(&sub[0]), aj(&neg0), aj(&sub[1])],
+            vec![rand_scalar_bits(r, 255), rand_scalar_bits(r, 255), rand_scalar_bits(r, 13)]),
+        ("identity-point", vec![aj(&zero), aj(&sub[2]), aj(&zero)],
+            vec![rand_scalar_bits(r, 255), rand_scalar_bits(r, 255), ones255.clone()]),
+        ("more-points", vec![aj(&sub[0]), aj(&sub[1]), aj(&sub[2])], vec![rand_scalar_bits(r, 255)]),
+        ("more-scalars", vec![aj(&sub[3])], vec![rand_scalar_bits(r, 255), rand_scalar_bits(r, 255), ones255.clone()]),
+        ("points-only", vec![aj(&sub[3])], vec![]),
+        ("scalars-only", vec![], vec![rand_scalar_bits(r, 77)]),
+        ("rand3", vec![aj(&sub[1]), aj(&sub[2]), aj(&sub[3])],
+            vec![rand_scalar_bits(r, 255), rand_scalar_bits(r, 129), rand_scalar_bits(r, 64)]),
+    ];
+    for (si, (name, pts, ks)) in shapes.iter().enumerate() {
+        let kj: Vec<Value> = ks.iter().map(|k| nat(k)).collect();
+        push(&mut ops, sessions, json!({"op": "msm", "g": g, "fn": "default", "points": pts, "scalars": kj, "cls": name}));
+        push(&mut ops, sessions, json!({"op": "msm", "g": g, "fn": "precomp", "points": pts, "scalars": kj, "cls": name}));
+        let ws: Vec<u64> = if thorough || (is1 && si % 4 == 1) { (1..=20).collect() }
+                           else { vec![1 + (si as u64 * 3) % 20, 1 + (si as u64 * 7 + 5) % 20, 20 - (si as u64 % 4)] };
+        for w in ws {
+            push(&mut ops, sessions, json!({"op": "msm", "g": g, "fn": "pippenger", "window": w,
+                                             "points": pts, "scalars": kj, "cls": name}));
+        }
+    }
+    // a single bit at every position (every offset inside every window), and two bits straddling
+    // each word boundary, for every window: two points so that buckets interact
+    let positions: Vec<usize> = if thorough { (0..255).collect() }
+                                else { (0..255).filter(|b| b % 64 < 3 || b % 64 > 60 || b % 17 == 0).collect() };
+    for (bi, b) in positions.iter().enumerate() {
+        let k1 = w_pow2(*b, 4);
+        let k2 = if *b > 0 { w_or(&w_pow2(*b, 4), &w_pow2(*b - 1, 4)) } else { w_pow2(0, 4) };
+        let ws: Vec<u64> = if thorough { (1..=20).collect() } else { vec![1 + (bi as u64) % 20, 1 + (bi as u64 * 7 + 3) % 20] };
+        for w in ws {
+            if !is1 && !thorough && bi % 4 != 0 {
+                continue;
+            }
+            push(&mut ops, sessions, json!({"op": "msm", "g": g, "fn": "pippenger", "window": w,
+                "points": [aj(&sub[0]), aj(&sub[1])], "scalars": [nat(&k1), nat(&k2)], "cls": "bit-position"}));
+        }
+    }
+    sessions.push(std::mem::replace(&mut ops, vec![]));
+    // large inputs over the labelled table; n straddles every boundary of the window heuristic
+    let bounds: Vec<usize> = if thorough {
+        vec![19, 20, 42, 43, 104, 105, 238, 239, 577, 578, 1257, 1258, 3463, 3464, 6491, 6492, 17145, 17146, 33675, 33676]
+    } else if is1 {
+        vec![19, 20, 42, 43, 104, 105, 238, 239, 577, 578, 1257, 1258, 3463, 3464]
+    } else {
+        vec![19, 20, 43, 105, 239]
+    };
+    for n in bounds {
+        let a: Vec<i64> = (0..n).map(|_| r.below(17) as i64 - 8).collect();
+        let ks: Vec<Value> = (0..n).map(|i| {
+            let b = if i % 5 == 0 { 255 } else { 1 + r.below(255) as usize };
+            nat(&rand_scalar_bits(r, b))
+        }).collect();
+        sessions.push(vec![json!({"op": "msml", "g": g, "fn": "default", "base": aj(&sub[n % 4]),
+                                  "a": a, "scalars": ks, "cls": format!("heuristic-n{}", n)})]);
+    }
+    for (i, w) in (1..=20u64).enumerate() {
+        if !thorough && !is1 && i % 3 != 0 {
+            continue;
+        }
+        let n = 30 + 3 * i;
+        let a: Vec<i64> = (0..n).map(|_| r.below(17) as i64 - 8).collect();
+        let ks: Vec<Value> = (0..n).map(|_| nat(&rand_scalar_bits(r, 255))).collect();
+        sessions.push(vec![json!({"op": "msml", "g": g, "fn": "pippenger", "window": w, "base": aj(&gen),
+                                  "a": a, "scalars": ks, "cls": format!("table-w{}", w)})]);
+    }
+    {
+        let n = 40;
+        let a: Vec<i64> = (0..n).map(|_| r.below(17) as i64 - 8).collect();
+        let ks: Vec<Value> = (0..n).map(|_| nat(&rand_scalar_bits(r, 255))).collect();
+        sessions.push(vec![json!({"op": "msml", "g": g, "fn": "precomp", "base": aj(&sub[1]),
+                                  "a": a, "scalars": ks, "cls": "table-precomp"})]);
+    }
+    // the window heuristic itself
+    let mut ops = vec![];
+    for n in 0..700u64 {
+        ops.push(json!({"op": "pipwin", "g": g, "n": nat(&vec![n]), "cls": "heuristic"}));
+    }
+    for e in 0..64u32 {
+        let x = 1u64 << e;
+        for d in [x.wrapping_sub(1), x, x.wrapping_add(1)].iter() {
+            ops.push(json!({"op": "pipwin", "g": g, "n": nat(&vec![*d]), "cls": "heuristic"}));
+        }
+    }
+    for b in [1258u64, 3464, 6492, 17146, 33676, 60319, 218189, 303280, 543651].iter() {
+        for d in [b - 1, *b, b + 1].iter() {
+            ops.push(json!({"op": "pipwin", "g": g, "n": nat(&vec![*d]), "cls": "heuristic"}));
+        }
+    }
+    sessions.push(ops);
+}
+
+fn wl_c10(seed: u64, tier: &str) -> Vec<Vec<Value>> {
+    let mut r = Rng(seed.wrapping_mul(1010) ^ 10);
+    let mut sessions = vec![];
+    wl_c10_group::<G1>(&mut r, seed, tier == "thorough", &mut sessions);
+    wl_c10_group::<G2>(&mut r, seed + 3, tier == "thorough", &mut sessions);
+    sessions.retain(|s| !s.is_empty());
+    sessions
+}
+
 pub fn generate(name: &str, seed: u64, tier: &str) -> Vec<Vec<Value>> {
     match name {
         "c01" => wl_c01(seed, tier),
+        "c02" => wl_c02(seed, tier),
+        "c10" => wl_c10(seed, tier),
         "c08" => wl_c08(seed, tier),
         "c09" => wl_c09(seed, tier),
         "c18" => wl_c18(seed, tier),
